@@ -2,14 +2,21 @@ import Fcgi.Model.Header
 import Fcgi.Model.Vars
 import Fcgi.Gen.Tables
 import Fcgi.Props.C15
+import Fcgi.Proofs.Header
 /-!
 # C17 — Record headers, fixed record bodies and generated replies
+
+Everything is stated over the executable model (`Model/Header.lean`, `Model/Vars.lean`); the
+`tables_agree*` theorems tie every literal the model hard-codes to `Gen/Tables.lean`, which is
+regenerated from the Rust source on every run.  All statements quantify over every header / body /
+byte string; the only hypotheses are the field widths of the wire format.
 -/
 namespace Fcgi.C17
-open Fcgi
+open Fcgi Fcgi.Proofs.Header
 
-/-! ## 1. The model's literals are the ones in the source (generated tables) -/
+/-! ## 1. The model's literals are the ones in the source -/
 
+/-- The eleven record types, in order, with the discriminants the model names in `RT.*`. -/
 theorem tables_agree_recordTypes :
     Gen.recordTypeTable =
       [("BeginRequest", RT.beginRequest), ("AbortRequest", RT.abortRequest),
@@ -20,8 +27,11 @@ theorem tables_agree_recordTypes :
     Gen.recordTypeTable.map (·.2) = [1, 2, 3, 4, 5, 6, 7, 8, 9, 10, 11] := by
   constructor <;> rfl
 
+/-- `RT.valid` accepts exactly the discriminants of the source enum (for every `t`, in particular
+every byte). -/
 theorem tables_agree_recordType_valid (t : Nat) :
     RT.valid t = Gen.recordTypeTable.any (·.2 == t) := by
+  rw [Bool.eq_iff_iff]
   simp [RT.valid, Gen.recordTypeTable]
   omega
 
@@ -29,6 +39,7 @@ theorem tables_agree_roles :
     Gen.roleTable.map (·.2) = [1, 2, 3] ∧
     ∀ r : Nat, roleValid r = Gen.roleTable.any (·.2 == r) := by
   refine ⟨rfl, fun r => ?_⟩
+  rw [Bool.eq_iff_iff]
   simp [roleValid, Gen.roleTable]
   omega
 
@@ -36,17 +47,544 @@ theorem tables_agree_protocolStatus :
     Gen.protocolStatusTable.map (·.2) = [0, 1, 2, 3] ∧
     ∀ s : Nat, EndRequest.statusValid s = Gen.protocolStatusTable.any (·.2 == s) := by
   refine ⟨rfl, fun s => ?_⟩
+  rw [Bool.eq_iff_iff]
   simp [EndRequest.statusValid, Gen.protocolStatusTable]
   omega
 
 theorem tables_agree_version : Gen.versionTable = [("V1", 1)] := rfl
 
+/-- The three record-type classes. -/
 theorem tables_agree_classes (t : Nat) :
     RT.isManagement t = Gen.isManagementList.contains t ∧
     RT.isInputStream t = Gen.isInputStreamList.contains t ∧
     RT.isOutputStream t = Gen.isOutputStreamList.contains t := by
+  refine ⟨?_, ?_, ?_⟩ <;> rw [Bool.eq_iff_iff] <;>
   simp [RT.isManagement, RT.isInputStream, RT.isOutputStream, Gen.isManagementList,
-    Gen.isInputStreamList, Gen.isOutputStreamList]
-  sorry
+    Gen.isInputStreamList, Gen.isOutputStreamList, or_assoc]
+
+theorem tables_agree_lengths :
+    Gen.recordHeaderLen = 8 ∧ Gen.unknownTypeLen = 8 ∧ Gen.beginRequestLen = 8 ∧
+    Gen.endRequestLen = 8 ∧ Gen.epilogueLen = 32 ∧ Gen.responseLen = 104 ∧
+    Gen.nullRequestId = 0 ∧ Gen.padModulus = 8 ∧ Gen.keepConn = 1 := by decide
+
+theorem tables_agree_vars :
+    Gen.protocolVarsTable = Vars.table ∧ Gen.varsUsingMaxConns = [1, 2] ∧
+    Gen.varsConst = [(4, [48])] := by decide +kernel
+
+/-- The value rule of the model is the one of the source: the variables listed in
+`varsUsingMaxConns` get the connection limit, those in `varsConst` their constant. -/
+theorem tables_agree_var_values (m : Nat) :
+    (∀ b ∈ Gen.varsUsingMaxConns, Vars.value b m = decimal m) ∧
+    (∀ e ∈ Gen.varsConst, Vars.value e.1 m = e.2) ∧
+    Vars.table.map (·.2) = Gen.varsUsingMaxConns ++ Gen.varsConst.map (·.1) := by
+  refine ⟨?_, ?_, by decide +kernel⟩ <;> simp [Gen.varsUsingMaxConns, Gen.varsConst, Vars.value]
+
+theorem tables_agree_exit :
+    Gen.exitAbort = 1094865492 ∧ ExitStatus.abort = .complete Gen.exitAbort ∧
+    Gen.exitSuccess = 0 ∧
+    Gen.exitStatusTable = [("Complete", 0), ("Overloaded", 2), ("UnknownRole", 3)] := by decide
+
+theorem tables_agree_streams :
+    Gen.inputStreamsTable.map (·.1) = [1, 2, 3] ∧
+    ∀ r ∈ [1, 2, 3], Gen.inputStreamsTable.lookup r = some (inputStreams r) ∧
+      outputStreams r = Gen.outputStreams := by decide
+
+/-- Every explicit arm of `Role::next_input_stream` is reproduced, and for every role and every
+reachable current stream, no arm in the source means `None` in the model. -/
+theorem tables_agree_nextInputStream :
+    (∀ a ∈ Gen.nextInputStreamArms, nextInputStream a.1 a.2.1 = a.2.2) ∧
+    (∀ r ∈ [1, 2, 3], ∀ c ∈ none :: (inputStreams r).map some,
+      (∀ x, (r, c, x) ∉ Gen.nextInputStreamArms) → nextInputStream r c = none) := by
+  refine ⟨by decide, ?_⟩
+  have key : ∀ r ∈ [1, 2, 3], ∀ c ∈ none :: (inputStreams r).map some,
+      (¬ ∃ a ∈ Gen.nextInputStreamArms, a.1 = r ∧ a.2.1 = c) → nextInputStream r c = none := by
+    decide
+  intro r hr c hc hx
+  refine key r hr c hc ?_
+  rintro ⟨⟨r', c', x⟩, ha, rfl, rfl⟩
+  exact hx x ha
+
+/-- All of the above in one statement (the byte- and word-ranged instances of the per-table theorems). -/
+theorem tables_agree :
+    (Gen.recordTypeTable.map (·.2) = [1, 2, 3, 4, 5, 6, 7, 8, 9, 10, 11]) ∧
+    (∀ t, t < 256 → RT.valid t = Gen.recordTypeTable.any (·.2 == t)) ∧
+    (Gen.roleTable.map (·.2) = [1, 2, 3]) ∧
+    (∀ r, r < 65536 → roleValid r = Gen.roleTable.any (·.2 == r)) ∧
+    (Gen.protocolStatusTable.map (·.2) = [0, 1, 2, 3]) ∧
+    (∀ s, s < 256 → EndRequest.statusValid s = Gen.protocolStatusTable.any (·.2 == s)) ∧
+    Gen.versionTable = [("V1", 1)] ∧
+    (∀ t, t < 256 → RT.isManagement t = Gen.isManagementList.contains t ∧
+      RT.isInputStream t = Gen.isInputStreamList.contains t ∧
+      RT.isOutputStream t = Gen.isOutputStreamList.contains t) ∧
+    (Gen.recordHeaderLen = 8 ∧ Gen.unknownTypeLen = 8 ∧ Gen.beginRequestLen = 8 ∧
+      Gen.endRequestLen = 8 ∧ Gen.epilogueLen = 32 ∧ Gen.responseLen = 104 ∧
+      Gen.nullRequestId = 0 ∧ Gen.padModulus = 8 ∧ Gen.keepConn = 1) ∧
+    (Gen.protocolVarsTable = Vars.table ∧ Gen.varsUsingMaxConns = [1, 2] ∧
+      Gen.varsConst = [(4, [48])]) ∧
+    (Gen.exitAbort = 1094865492 ∧ ExitStatus.abort = .complete Gen.exitAbort ∧
+      Gen.exitSuccess = 0 ∧
+      Gen.exitStatusTable = [("Complete", 0), ("Overloaded", 2), ("UnknownRole", 3)]) ∧
+    (∀ r ∈ [1, 2, 3], Gen.inputStreamsTable.lookup r = some (inputStreams r) ∧
+      outputStreams r = Gen.outputStreams) ∧
+    (∀ a ∈ Gen.nextInputStreamArms, nextInputStream a.1 a.2.1 = a.2.2) ∧
+    (∀ r ∈ [1, 2, 3], ∀ c ∈ none :: (inputStreams r).map some,
+      (∀ x, (r, c, x) ∉ Gen.nextInputStreamArms) → nextInputStream r c = none) :=
+  ⟨tables_agree_recordTypes.2, fun t _ => tables_agree_recordType_valid t,
+   tables_agree_roles.1, fun r _ => tables_agree_roles.2 r,
+   tables_agree_protocolStatus.1, fun s _ => tables_agree_protocolStatus.2 s,
+   tables_agree_version, fun t _ => tables_agree_classes t,
+   tables_agree_lengths, tables_agree_vars, tables_agree_exit, tables_agree_streams.2,
+   tables_agree_nextInputStream.1, tables_agree_nextInputStream.2⟩
+
+/-! ## 2–4. Record header -/
+
+theorem header_length (h : RecordHeader) : h.toBytes.length = 8 := by
+  simp [RecordHeader.toBytes, toBe16]
+
+/-- Encoding then decoding (with anything following) is the identity on headers whose fields fit
+their wire width. -/
+theorem header_roundtrip (h : RecordHeader) (ht : RT.valid h.rtype = true)
+    (hi : h.requestId < 65536) (hc : h.contentLength < 65536) (hp : h.paddingLength < 256)
+    (rest : Bytes) : RecordHeader.fromBytes (h.toBytes ++ rest) = some (.ok h) := by
+  obtain ⟨t, i, c, p⟩ := h
+  simp [RT.valid] at ht
+  simp at hi hc hp
+  have h1 : t % 256 = t := by omega
+  simp [RecordHeader.toBytes, toBe16, RecordHeader.fromBytes, be16, UInt8.toNat_ofNat', RT.valid,
+    h1, ht]
+  omega
+
+/-- Fewer than 8 bytes: nothing is decoded. -/
+theorem header_short (bs : Bytes) (h : bs.length < 8) : RecordHeader.fromBytes bs = none := by
+  unfold RecordHeader.fromBytes
+  split
+  · simp at h; omega
+  · rfl
+
+/-- Exactly which 8-byte prefixes are rejected, and with which error: the version is checked
+first (whatever the type byte), then the type; everything else decodes. -/
+theorem header_reject_iff (b0 b1 b2 b3 b4 b5 b6 b7 : UInt8) (rest : Bytes) :
+    let r := RecordHeader.fromBytes (b0 :: b1 :: b2 :: b3 :: b4 :: b5 :: b6 :: b7 :: rest)
+    (r = some (.error (.unknownVersion b0)) ↔ b0.toNat ≠ 1) ∧
+    (r = some (.error (.unknownRecordType b1)) ↔
+      b0.toNat = 1 ∧ ¬(1 ≤ b1.toNat ∧ b1.toNat ≤ 11)) ∧
+    (r = some (.ok { rtype := b1.toNat, requestId := be16 b2 b3, contentLength := be16 b4 b5,
+                     paddingLength := b6.toNat }) ↔
+      b0.toNat = 1 ∧ 1 ≤ b1.toNat ∧ b1.toNat ≤ 11) ∧
+    ((∃ e, r = some (.error e)) ↔ ¬(b0.toNat = 1 ∧ 1 ≤ b1.toNat ∧ b1.toNat ≤ 11)) := by
+  intro r
+  simp only [r, RecordHeader.fromBytes, RT.valid]
+  by_cases h0 : b0.toNat = 1 <;> by_cases h1 : (1 ≤ b1.toNat ∧ b1.toNat ≤ 11) <;> simp [h0, h1]
+
+/-- Any decodable 8 bytes re-encode to themselves, except that the reserved byte becomes 0. -/
+theorem header_reencode (b0 b1 b2 b3 b4 b5 b6 b7 : UInt8) (rest : Bytes) (h : RecordHeader)
+    (hd : RecordHeader.fromBytes (b0 :: b1 :: b2 :: b3 :: b4 :: b5 :: b6 :: b7 :: rest) = some (.ok h)) :
+    h.toBytes = [b0, b1, b2, b3, b4, b5, b6, 0] := by
+  simp only [RecordHeader.fromBytes] at hd
+  split at hd
+  · simp at hd
+  · split at hd
+    · simp at hd
+    · rename_i h0 _
+      simp at hd
+      subst hd
+      have : b0 = 1 := UInt8.toNat_inj.mp (by simpa using h0)
+      simp [RecordHeader.toBytes, toBe16_be16, this]
+
+/-- A decoded header always has in-range fields (so `header_roundtrip` applies to it). -/
+theorem header_decoded_range (bs : Bytes) (h : RecordHeader)
+    (hd : RecordHeader.fromBytes bs = some (.ok h)) :
+    RT.valid h.rtype = true ∧ h.requestId < 65536 ∧ h.contentLength < 65536 ∧
+      h.paddingLength < 256 := by
+  unfold RecordHeader.fromBytes at hd
+  split at hd
+  · split at hd
+    · simp at hd
+    · split at hd
+      · simp at hd
+      · rename_i hv
+        simp at hd
+        subst hd
+        exact ⟨by simpa using hv, be16_lt _ _, be16_lt _ _, UInt8.toNat_lt _⟩
+  · simp at hd
+
+/-! ## 5. Fixed bodies -/
+
+theorem begin_length (b : BeginRequest) : b.toBytes.length = 8 := by
+  simp [BeginRequest.toBytes, toBe16]
+
+/-- Every role in 1..3 with *any* flags byte survives the round trip (all 256 flag values are
+retained, not only `KEEP_CONN`). -/
+theorem begin_roundtrip (b : BeginRequest) (hr : 1 ≤ b.role ∧ b.role ≤ 3) (rest : Bytes) :
+    BeginRequest.fromBytes (b.toBytes ++ rest) = some (.ok b) := by
+  obtain ⟨r, f⟩ := b
+  simp at hr
+  have h1 : r / 256 % 256 = 0 := by omega
+  have h2 : r % 256 = r := by omega
+  simp [BeginRequest.toBytes, toBe16, BeginRequest.fromBytes, be16, UInt8.toNat_ofNat', roleValid,
+    h1, h2, hr]
+
+theorem begin_short (bs : Bytes) (h : bs.length < 8) : BeginRequest.fromBytes bs = none := by
+  unfold BeginRequest.fromBytes
+  split
+  · simp at h; omega
+  · rfl
+
+theorem begin_reject_iff (d0 d1 d2 d3 d4 d5 d6 d7 : UInt8) (rest : Bytes) :
+    let r := BeginRequest.fromBytes (d0 :: d1 :: d2 :: d3 :: d4 :: d5 :: d6 :: d7 :: rest)
+    (r = some (.error (.unknownRole (be16 d0 d1))) ↔ ¬(1 ≤ be16 d0 d1 ∧ be16 d0 d1 ≤ 3)) ∧
+    (r = some (.ok { role := be16 d0 d1, flags := d2 }) ↔ 1 ≤ be16 d0 d1 ∧ be16 d0 d1 ≤ 3) ∧
+    ((∃ e, r = some (.error e)) ↔ ¬(1 ≤ be16 d0 d1 ∧ be16 d0 d1 ≤ 3)) := by
+  intro r
+  simp only [r, BeginRequest.fromBytes, roleValid]
+  by_cases h : (1 ≤ be16 d0 d1 ∧ be16 d0 d1 ≤ 3) <;> simp [h]
+
+theorem begin_reencode (d0 d1 d2 d3 d4 d5 d6 d7 : UInt8) (rest : Bytes) (b : BeginRequest)
+    (hd : BeginRequest.fromBytes (d0 :: d1 :: d2 :: d3 :: d4 :: d5 :: d6 :: d7 :: rest) = some (.ok b)) :
+    b.toBytes = [d0, d1, d2, 0, 0, 0, 0, 0] := by
+  simp only [BeginRequest.fromBytes] at hd
+  split at hd
+  · simp at hd
+  · simp at hd
+    subst hd
+    simp [BeginRequest.toBytes, toBe16_be16]
+
+theorem end_length (e : EndRequest) : e.toBytes.length = 8 := by
+  simp [EndRequest.toBytes, toBe32]
+
+theorem end_roundtrip (e : EndRequest) (ha : e.appStatus < 4294967296) (hs : e.protocolStatus ≤ 3)
+    (rest : Bytes) : EndRequest.fromBytes (e.toBytes ++ rest) = some (.ok e) := by
+  obtain ⟨a, s⟩ := e
+  simp at ha hs
+  have h1 : s % 256 = s := by omega
+  simp [EndRequest.toBytes, toBe32, EndRequest.fromBytes, be32, UInt8.toNat_ofNat',
+    EndRequest.statusValid, h1, hs]
+  omega
+
+theorem end_short (bs : Bytes) (h : bs.length < 8) : EndRequest.fromBytes bs = none := by
+  unfold EndRequest.fromBytes
+  split
+  · simp at h; omega
+  · rfl
+
+theorem end_reject_iff (d0 d1 d2 d3 d4 d5 d6 d7 : UInt8) (rest : Bytes) :
+    let r := EndRequest.fromBytes (d0 :: d1 :: d2 :: d3 :: d4 :: d5 :: d6 :: d7 :: rest)
+    (r = some (.error (.unknownStatus d4)) ↔ ¬(d4.toNat ≤ 3)) ∧
+    (r = some (.ok { appStatus := be32 d0 d1 d2 d3, protocolStatus := d4.toNat }) ↔ d4.toNat ≤ 3) ∧
+    ((∃ e, r = some (.error e)) ↔ ¬(d4.toNat ≤ 3)) := by
+  intro r
+  simp only [r, EndRequest.fromBytes, EndRequest.statusValid]
+  by_cases h : d4.toNat ≤ 3 <;> simp [h]
+
+theorem end_reencode (d0 d1 d2 d3 d4 d5 d6 d7 : UInt8) (rest : Bytes) (e : EndRequest)
+    (hd : EndRequest.fromBytes (d0 :: d1 :: d2 :: d3 :: d4 :: d5 :: d6 :: d7 :: rest) = some (.ok e)) :
+    e.toBytes = [d0, d1, d2, d3, d4, 0, 0, 0] := by
+  simp only [EndRequest.fromBytes] at hd
+  split at hd
+  · simp at hd
+  · simp at hd
+    subst hd
+    simp [EndRequest.toBytes, toBe32_be32]
+
+theorem unknown_length (t : UInt8) : (UnknownType.toBytes t).length = 8 := rfl
+
+theorem unknown_roundtrip (t : UInt8) (rest : Bytes) :
+    UnknownType.fromBytes (UnknownType.toBytes t ++ rest) = some t := rfl
+
+theorem unknown_short (bs : Bytes) (h : bs.length < 8) : UnknownType.fromBytes bs = none := by
+  unfold UnknownType.fromBytes
+  split
+  · simp at h; omega
+  · rfl
+
+theorem unknown_reencode (d0 d1 d2 d3 d4 d5 d6 d7 : UInt8) (rest : Bytes) :
+    UnknownType.fromBytes (d0 :: d1 :: d2 :: d3 :: d4 :: d5 :: d6 :: d7 :: rest) = some d0 ∧
+    UnknownType.toBytes d0 = [d0, 0, 0, 0, 0, 0, 0, 0] := ⟨rfl, rfl⟩
+
+/-- The header every fixed-body record carries. -/
+def fixedHeader (rtype id : Nat) : RecordHeader :=
+  { rtype := rtype, requestId := id, contentLength := 8, paddingLength := 0 }
+
+theorem fixedHeader_decodes (rtype id : Nat) (ht : RT.valid rtype = true) (hid : id < 65536)
+    (rest : Bytes) :
+    RecordHeader.fromBytes ((fixedHeader rtype id).toBytes ++ rest) = some (.ok (fixedHeader rtype id)) :=
+  header_roundtrip _ ht hid (by show 8 < 65536; decide) (by show 0 < 256; decide) rest
+
+theorem begin_toRecord (b : BeginRequest) (id : Nat) :
+    b.toRecord id = RecordHeader.toBytes { rtype := 1, requestId := id, contentLength := 8,
+                                           paddingLength := 0 } ++ b.toBytes ∧
+    (b.toRecord id).length = 16 ∧
+    (id < 65536 → RecordHeader.fromBytes (b.toRecord id) =
+      some (.ok { rtype := 1, requestId := id, contentLength := 8, paddingLength := 0 })) :=
+  ⟨rfl, by simp [BeginRequest.toRecord, header_length, begin_length],
+   fun hid => fixedHeader_decodes 1 id (by decide) hid _⟩
+
+theorem end_toRecord (e : EndRequest) (id : Nat) :
+    e.toRecord id = RecordHeader.toBytes { rtype := 3, requestId := id, contentLength := 8,
+                                           paddingLength := 0 } ++ e.toBytes ∧
+    (e.toRecord id).length = 16 ∧
+    (id < 65536 → RecordHeader.fromBytes (e.toRecord id) =
+      some (.ok { rtype := 3, requestId := id, contentLength := 8, paddingLength := 0 })) :=
+  ⟨rfl, by simp [EndRequest.toRecord, header_length, end_length],
+   fun hid => fixedHeader_decodes 3 id (by decide) hid _⟩
+
+theorem unknown_toRecord (t : UInt8) (id : Nat) :
+    UnknownType.toRecord t id =
+      RecordHeader.toBytes { rtype := 11, requestId := id, contentLength := 8, paddingLength := 0 } ++
+        UnknownType.toBytes t ∧
+    (UnknownType.toRecord t id).length = 16 ∧
+    (id < 65536 → RecordHeader.fromBytes (UnknownType.toRecord t id) =
+      some (.ok { rtype := 11, requestId := id, contentLength := 8, paddingLength := 0 })) :=
+  ⟨rfl, by simp [UnknownType.toRecord, header_length, unknown_length],
+   fun hid => fixedHeader_decodes 11 id (by decide) hid _⟩
+
+/-! ## 6. Padding -/
+
+/-- `set_lengths` pads every content length to the next multiple of 8 with fewer than 8 bytes. -/
+theorem padding_rule (c : Nat) :
+    RecordHeader.autoPadding c < 8 ∧ (c + RecordHeader.autoPadding c) % 8 = 0 := by
+  unfold RecordHeader.autoPadding
+  split <;> omega
+
+/-- … and with the least such amount. -/
+theorem padding_minimal (c p : Nat) (h : (c + p) % 8 = 0) : RecordHeader.autoPadding c ≤ p := by
+  unfold RecordHeader.autoPadding
+  split <;> omega
+
+theorem tables_agree_padding (c : Nat) :
+    RecordHeader.autoPadding c < Gen.padModulus ∧
+    (c + RecordHeader.autoPadding c) % Gen.padModulus = 0 := padding_rule c
+
+/-! ## 7. The `GetValuesResult` reply -/
+
+theorem decimal_length (n k : Nat) (h : n < 10 ^ k) (hk : 0 < k) :
+    (decimal n).length ≤ k ∧ 1 ≤ (decimal n).length := by
+  obtain ⟨k, rfl⟩ : ∃ j, k = j + 1 := ⟨k - 1, by omega⟩
+  exact ⟨decimal_length_le k n h, decimal_length_pos n⟩
+
+theorem decimal_length_u64 (n : Nat) (h : n < 2 ^ 64) : (decimal n).length ≤ 20 :=
+  (decimal_length n 20 (by omega) (by decide)).1
+
+/-- The three variable names as bytes (`"…".toUTF8` evaluated). -/
+theorem names_eq :
+    Vars.nameMaxConns = [70, 67, 71, 73, 95, 77, 65, 88, 95, 67, 79, 78, 78, 83] ∧
+    Vars.nameMaxReqs = [70, 67, 71, 73, 95, 77, 65, 88, 95, 82, 69, 81, 83] ∧
+    Vars.nameMpxsConns = [70, 67, 71, 73, 95, 77, 80, 88, 83, 95, 67, 79, 78, 78, 83] := by
+  decide +kernel
+
+private theorem name_lengths :
+    Vars.nameMaxConns.length = 14 ∧ Vars.nameMaxReqs.length = 13 ∧
+    Vars.nameMpxsConns.length = 15 := by
+  simp [names_eq]
+
+private theorem enc_length_small (p : Bytes × Bytes) (h1 : p.1.length < 128) (h2 : p.2.length < 128) :
+    (NV.enc p).length = 2 + p.1.length + p.2.length := by
+  simp [NV.enc, C15.encode_length, h1, h2]; omega
+
+/-- The body is at most 89 bytes (two limits of at most 20 digits and the multiplexing flag). -/
+theorem body_length_le (set maxConns : Nat) (hlt : maxConns < 2 ^ 64) :
+    (Vars.body set maxConns).length ≤ 89 := by
+  have hd := decimal_length_u64 maxConns hlt
+  obtain ⟨n1, n2, n3⟩ := name_lengths
+  have e1 := enc_length_small (Vars.nameMaxConns, decimal maxConns) (by simp [n1]) (by simp; omega)
+  have e2 := enc_length_small (Vars.nameMaxReqs, decimal maxConns) (by simp [n2]) (by simp; omega)
+  have e3 := enc_length_small (Vars.nameMpxsConns, [48]) (by simp [n3]) (by simp)
+  simp [n1, n2, n3] at e1 e2 e3
+  cases h1 : Vars.has set 1 <;> cases h2 : Vars.has set 2 <;> cases h4 : Vars.has set 4 <;>
+    simp [Vars.body, Vars.table, h1, h2, h4, Vars.value, e1, e2, e3] <;> omega
+
+/-- The body decodes to exactly the requested variables, in declaration order, with their values. -/
+theorem body_decodes (set maxConns : Nat) (hlt : maxConns < 2 ^ 64) :
+    NV.all (Vars.body set maxConns) =
+      ((Vars.table.filter (fun e => Vars.has set e.2)).map
+        (fun e => (e.1, Vars.value e.2 maxConns)), []) := by
+  have hd := decimal_length_u64 maxConns hlt
+  obtain ⟨n1, n2, n3⟩ := name_lengths
+  rw [← all_flatMap_enc]
+  · rw [List.flatMap_map]; rfl
+  · intro p hp
+    simp only [List.mem_map, List.mem_filter] at hp
+    obtain ⟨e, ⟨he, _⟩, rfl⟩ := hp
+    simp [Vars.table] at he
+    rcases he with rfl | rfl | rfl <;>
+      simp [Vars.value, VarInt.maxVal, n1, n2, n3] <;> omega
+
+/-- Strong form: neither `set < 8` nor `0 < maxConns` is needed. -/
+theorem writeResponse_spec' (set maxConns : Nat) (hlt : maxConns < 2 ^ 64) (pre : Bytes) :
+    let rec_ := Vars.responseRecord set maxConns
+    let body := Vars.body set maxConns
+    Vars.writeResponse set pre maxConns = (pre ++ rec_, rec_.length) ∧
+    rec_.length ≤ 104 ∧
+    rec_ = ((RecordHeader.new 10 0).setLengths body.length).toBytes ++ body ++
+      zeros (RecordHeader.autoPadding body.length) ∧
+    RecordHeader.fromBytes rec_ =
+      some (.ok ⟨10, 0, body.length, RecordHeader.autoPadding body.length⟩) ∧
+    rec_.length = 8 + body.length + RecordHeader.autoPadding body.length ∧
+    rec_.length % 8 = 0 ∧
+    NV.all body = ((Vars.table.filter (fun e => Vars.has set e.2)).map
+        (fun e => (e.1, Vars.value e.2 maxConns)), []) := by
+  intro rec_ body
+  have hb : body.length ≤ 89 := body_length_le set maxConns hlt
+  have hp := padding_rule body.length
+  have hlen : rec_.length = 8 + body.length + RecordHeader.autoPadding body.length := by
+    simp [rec_, Vars.responseRecord, header_length, zeros, body]
+    omega
+  refine ⟨rfl, by omega, rfl, ?_, hlen, by omega, body_decodes set maxConns hlt⟩
+  simp only [rec_, Vars.responseRecord, List.append_assoc]
+  exact header_roundtrip
+    { rtype := 10, requestId := 0, contentLength := body.length,
+      paddingLength := RecordHeader.autoPadding body.length }
+    rfl (by show 0 < 65536; decide) (by simp; omega) (by simp; omega) _
+
+/-- The reply to a `GetValues` query, for every variable set and every connection limit a 64-bit
+`NonZeroUsize` can hold, appended to any existing buffer contents. -/
+theorem writeResponse_spec (set maxConns : Nat) (_hset : set < 8) (_hpos : 0 < maxConns)
+    (hlt : maxConns < 2 ^ 64) (pre : Bytes) :
+    let rec_ := Vars.responseRecord set maxConns
+    let body := Vars.body set maxConns
+    Vars.writeResponse set pre maxConns = (pre ++ rec_, rec_.length) ∧
+    rec_.length ≤ 104 ∧
+    rec_ = ((RecordHeader.new 10 0).setLengths body.length).toBytes ++ body ++
+      zeros (RecordHeader.autoPadding body.length) ∧
+    RecordHeader.fromBytes rec_ =
+      some (.ok ⟨10, 0, body.length, RecordHeader.autoPadding body.length⟩) ∧
+    rec_.length = 8 + body.length + RecordHeader.autoPadding body.length ∧
+    rec_.length % 8 = 0 ∧
+    NV.all body = ((Vars.table.filter (fun e => Vars.has set e.2)).map
+        (fun e => (e.1, Vars.value e.2 maxConns)), []) :=
+  writeResponse_spec' set maxConns hlt pre
+
+/-- The documented bound `RESPONSE_LEN` of the source holds. -/
+theorem writeResponse_le_responseLen (set maxConns : Nat) (hlt : maxConns < 2 ^ 64) (pre : Bytes) :
+    (Vars.writeResponse set pre maxConns).2 ≤ Gen.responseLen :=
+  (writeResponse_spec' set maxConns hlt pre).2.1
+
+/-! ## 8. Exit status and request epilogue -/
+
+theorem exit_mapping (c : Nat) :
+    (ExitStatus.complete c).toEndRequest = ⟨c, 0⟩ ∧
+    ExitStatus.overloaded.toEndRequest = ⟨0, 2⟩ ∧
+    ExitStatus.unknownRole.toEndRequest = ⟨0, 3⟩ ∧
+    ExitStatus.abort.toEndRequest = ⟨1094865492, 0⟩ := ⟨rfl, rfl, rfl, rfl⟩
+
+/-- The protocol status written is always a valid one, and the discriminants are those of
+`ProtocolStatus::{RequestComplete, Overloaded, UnknownRole}` in the source. -/
+theorem exit_mapping_tables (c : Nat) :
+    (ExitStatus.complete c).toEndRequest.protocolStatus = Gen.protocolStatus_RequestComplete ∧
+    ExitStatus.overloaded.toEndRequest.protocolStatus = Gen.protocolStatus_Overloaded ∧
+    ExitStatus.unknownRole.toEndRequest.protocolStatus = Gen.protocolStatus_UnknownRole ∧
+    ∀ st : ExitStatus, EndRequest.statusValid st.toEndRequest.protocolStatus = true := by
+  refine ⟨rfl, rfl, rfl, ?_⟩
+  intro st; cases st <;> rfl
+
+private theorem flatMap_header_length (id : Nat) (streams : List Nat) :
+    (streams.flatMap (fun s => RecordHeader.toBytes ⟨s, id, 0, 0⟩)).length = 8 * streams.length := by
+  induction streams with
+  | nil => rfl
+  | cons s t ih => simp [List.flatMap_cons, header_length, ih]; omega
+
+/-- The epilogue is one empty record per given stream, in order, followed by the `EndRequest`
+record carrying the mapped exit status. -/
+theorem epilogue_spec (id : Nat) (st : ExitStatus) (streams : List Nat) :
+    makeRequestEpilogue id st streams =
+      streams.flatMap (fun s => RecordHeader.toBytes ⟨s, id, 0, 0⟩) ++ st.toEndRequest.toRecord id ∧
+    (makeRequestEpilogue id st streams).length = 8 * streams.length + 16 ∧
+    ∀ role, (makeRequestEpilogue id st (outputStreams role)).length = Gen.epilogueLen := by
+  have hlen : ∀ ss, (makeRequestEpilogue id st ss).length = 8 * ss.length + 16 := by
+    intro ss
+    show (ss.flatMap (fun s => RecordHeader.toBytes ⟨s, id, 0, 0⟩) ++ _).length = _
+    rw [List.length_append, flatMap_header_length, (end_toRecord _ id).2.1]
+  exact ⟨rfl, hlen streams, fun role => by rw [hlen]; rfl⟩
+
+/-! ## Concrete instances (non-vacuity) -/
+
+example : RecordHeader.fromBytes [1, 9, 0x46, 0xaf, 0x32, 0xa4, 0x8b, 0] =
+    some (.ok { rtype := 9, requestId := 0x46af, contentLength := 0x32a4, paddingLength := 0x8b }) := by
+  simp [RecordHeader.fromBytes, RT.valid, be16]
+example : RecordHeader.toBytes ⟨9, 0x46af, 0x32a4, 0x8b⟩ = [1, 9, 0x46, 0xaf, 0x32, 0xa4, 0x8b, 0] := by
+  decide
+example : RecordHeader.fromBytes (RecordHeader.toBytes ⟨9, 0x46af, 0x32a4, 0x8b⟩ ++ [5, 5]) =
+    some (.ok ⟨9, 0x46af, 0x32a4, 0x8b⟩) :=
+  header_roundtrip _ (by decide) (by decide) (by decide) (by decide) _
+-- reserved byte ignored on input, trailing bytes ignored
+example : RecordHeader.fromBytes [1, 6, 0, 1, 0, 5, 3, 0xff, 9, 9] =
+    some (.ok { rtype := 6, requestId := 1, contentLength := 5, paddingLength := 3 }) := by
+  simp [RecordHeader.fromBytes, RT.valid, be16]
+-- version first: bad version *and* bad type reports the version
+example : RecordHeader.fromBytes [2, 0, 0, 0, 0, 0, 0, 0] = some (.error (.unknownVersion 2)) := by
+  simp [RecordHeader.fromBytes]
+example : RecordHeader.fromBytes [1, 12, 0, 0, 0, 0, 0, 0] = some (.error (.unknownRecordType 12)) := by
+  simp [RecordHeader.fromBytes, RT.valid]
+example : RecordHeader.fromBytes [1, 0, 0, 0, 0, 0, 0, 0] = some (.error (.unknownRecordType 0)) := by
+  simp [RecordHeader.fromBytes, RT.valid]
+example : RecordHeader.fromBytes [1, 1, 0, 0, 0, 0, 0] = none := by
+  simp [RecordHeader.fromBytes]
+-- BeginRequest: Filter role, flags byte 0xfe retained
+example : BeginRequest.fromBytes [0, 3, 0xfe, 1, 2, 3, 4, 5] = some (.ok ⟨3, 0xfe⟩) := by
+  simp [BeginRequest.fromBytes, roleValid, be16]
+example : BeginRequest.fromBytes [1, 3, 0, 0, 0, 0, 0, 0] = some (.error (.unknownRole 259)) := by
+  simp [BeginRequest.fromBytes, roleValid, be16]
+example : BeginRequest.fromBytes [0, 0, 0, 0, 0, 0, 0, 0] = some (.error (.unknownRole 0)) := by
+  simp [BeginRequest.fromBytes, roleValid, be16]
+example : (BeginRequest.mk 1 1).toRecord 0x0102 = [1, 1, 1, 2, 0, 8, 0, 0, 0, 1, 1, 0, 0, 0, 0, 0] := by
+  decide
+-- EndRequest
+example : EndRequest.fromBytes [0x41, 0x42, 0x52, 0x54, 0, 7, 7, 7] = some (.ok ⟨1094865492, 0⟩) := by
+  simp [EndRequest.fromBytes, EndRequest.statusValid, be32]
+example : EndRequest.fromBytes [0, 0, 0, 0, 4, 0, 0, 0] = some (.error (.unknownStatus 4)) := by
+  simp [EndRequest.fromBytes, EndRequest.statusValid]
+example : ExitStatus.abort.toEndRequest.toRecord 1 =
+    [1, 3, 0, 1, 0, 8, 0, 0, 0x41, 0x42, 0x52, 0x54, 0, 0, 0, 0] := by decide
+example : UnknownType.toRecord 0x2a 0 = [1, 11, 0, 0, 0, 8, 0, 0, 0x2a, 0, 0, 0, 0, 0, 0, 0] := by
+  decide
+-- padding
+example : RecordHeader.autoPadding 51 = 5 ∧ RecordHeader.autoPadding 64 = 0 ∧
+    RecordHeader.autoPadding 65535 = 1 := by decide
+-- decimal rendering
+example : decimal 0 = [48] ∧ decimal 183 = [49, 56, 51] ∧
+    (decimal 18446744073709551615).length = 20 := by
+  simp [decimal]
+-- all three variables, limit 1: the 64-byte record (51 body bytes, 5 padding bytes)
+example : Vars.writeResponse 7 [] 1 =
+    ([1, 10, 0, 0, 0, 51, 5, 0,
+      14, 1, 70, 67, 71, 73, 95, 77, 65, 88, 95, 67, 79, 78, 78, 83, 49,
+      13, 1, 70, 67, 71, 73, 95, 77, 65, 88, 95, 82, 69, 81, 83, 49,
+      15, 1, 70, 67, 71, 73, 95, 77, 80, 88, 83, 95, 67, 79, 78, 78, 83, 48,
+      0, 0, 0, 0, 0], 64) := by
+  simp [Vars.writeResponse, Vars.responseRecord, Vars.body, Vars.table, Vars.has, Vars.value,
+    names_eq, NV.enc, VarInt.encode, decimal, RecordHeader.toBytes, RecordHeader.setLengths,
+    RecordHeader.new, RecordHeader.autoPadding, RT.getValuesResult, toBe16, zeros]
+-- the reference record of the crate's own unit test (`vars.rs::tests::response`): limit 183,
+-- appended to existing data
+example : Vars.writeResponse 7 [0x7d, 0x7d] 183 =
+    ([0x7d, 0x7d, 1, 10, 0, 0, 0, 55, 1, 0,
+      14, 3, 70, 67, 71, 73, 95, 77, 65, 88, 95, 67, 79, 78, 78, 83, 49, 56, 51,
+      13, 3, 70, 67, 71, 73, 95, 77, 65, 88, 95, 82, 69, 81, 83, 49, 56, 51,
+      15, 1, 70, 67, 71, 73, 95, 77, 80, 88, 83, 95, 67, 79, 78, 78, 83, 48,
+      0], 64) := by
+  simp [Vars.writeResponse, Vars.responseRecord, Vars.body, Vars.table, Vars.has, Vars.value,
+    names_eq, NV.enc, VarInt.encode, decimal, RecordHeader.toBytes, RecordHeader.setLengths,
+    RecordHeader.new, RecordHeader.autoPadding, RT.getValuesResult, toBe16, zeros]
+-- only FCGI_MPXS_CONNS requested
+example : Vars.responseRecord 4 55 =
+    [1, 10, 0, 0, 0, 18, 6, 0,
+     15, 1, 70, 67, 71, 73, 95, 77, 80, 88, 83, 95, 67, 79, 78, 78, 83, 48, 0, 0, 0, 0, 0, 0] := by
+  simp [Vars.responseRecord, Vars.body, Vars.table, Vars.has, Vars.value,
+    names_eq, NV.enc, VarInt.encode, RecordHeader.toBytes, RecordHeader.setLengths,
+    RecordHeader.new, RecordHeader.autoPadding, RT.getValuesResult, toBe16, zeros]
+-- the bound 104 is attained (`vars.rs::tests::response_len`)
+example : (Vars.writeResponse 7 [] 18446744073709551615).2 = 104 := by
+  simp [Vars.writeResponse, Vars.responseRecord, Vars.body, Vars.table, Vars.has, Vars.value,
+    names_eq, NV.enc, VarInt.encode, decimal, RecordHeader.toBytes, RecordHeader.setLengths,
+    RecordHeader.new, RecordHeader.autoPadding, RT.getValuesResult, toBe16, zeros]
+-- nothing requested: an empty record
+example : Vars.responseRecord 0 9 = [1, 10, 0, 0, 0, 0, 0, 0] := by
+  simp [Vars.responseRecord, Vars.body, Vars.table, Vars.has, RecordHeader.toBytes,
+    RecordHeader.setLengths, RecordHeader.new, RecordHeader.autoPadding, RT.getValuesResult,
+    toBe16, zeros]
+-- epilogue for a responder, request 1, overloaded
+example : makeRequestEpilogue 1 .overloaded (outputStreams 1) =
+    [1, 6, 0, 1, 0, 0, 0, 0, 1, 7, 0, 1, 0, 0, 0, 0,
+     1, 3, 0, 1, 0, 8, 0, 0, 0, 0, 0, 0, 2, 0, 0, 0] := by decide
 
 end Fcgi.C17
